@@ -37,6 +37,7 @@ func runC10(c *Ctx) {
 	// "a null where a value is required is rejected": a null argument stays null until it is tested
 	rulePayloadStores(c, "R10.j")
 	ruleIsNilMeansNull(c, "R10.j")
+	ruleRecycledObjectsReset(c, "R10.p")
 	c.assume("surplus trailing arguments are ignored by most executors (the property speaks of lacking/ill-formed arguments)")
 }
 
